@@ -261,3 +261,14 @@ Proof.
     unfold enough_fuel. fold D. unfold D. lia. }
   exists t. split; [exact Ht'|]. intros S. apply gsizeof_unfold; assumption.
 Qed.
+
+(** * A cyclic value: the recursion never ends (every fuel is exhausted) *)
+Theorem self_loop_diverges : forall fuel, gsizeof [GStruct [GRef 0]] fuel (GRef 0) = None.
+Proof.
+  assert (H : forall fuel, gsizeof [GStruct [GRef 0]] fuel (GRef 0) = None /\
+                           gsizeof [GStruct [GRef 0]] fuel (GStruct [GRef 0]) = None).
+  { induction fuel as [|fuel [IH1 IH2]]; [split; reflexivity|]. split.
+    - cbn [gsizeof nth_error]. rewrite IH2. reflexivity.
+    - cbn [gsizeof gsum_elems]. rewrite IH1. reflexivity. }
+  intros fuel. apply H.
+Qed.
